@@ -31,6 +31,7 @@ var walkExceptions = []walkException{
 	{"dxil/internal/passes/mem2reg.collectExpressionHandles/ExpressionKind", "ExprImageQuery.Query", "the image-query level operand is a value, never a pointer to a local (findings/D4/notes.md)"},
 	{"dxil/internal/passes/mem2reg.collectExpressionHandles/ExpressionKind", "ExprPhi", "phi incomings are values created by mem2reg itself, never local-variable pointers (findings/D4/notes.md)"},
 	{"dxil/internal/passes/mem2reg.collectExpressionHandles/ExpressionKind", "ExprRayQueryGetIntersection", "the operand points at a ray_query local, whose type is never promotable (findings/D4/notes.md)"},
+	{"msl/internal/codegen.Writer.countStmtExprRefs/StatementKind", "*", "reference-count / bake heuristic only: Load, ImageSample, ImageLoad and Derivative are always baked and every other expression is pure, so an under-counted reference merely leaves a pure expression inlined"},
 	// --- "does this block end in a return / contain a loop-level break" predicates: a loop body is not a fall-through path
 	{"wgsl/internal/lower.ensureBlockReturns/StatementKind", "StmtLoop", "return-path analysis: a value returned inside a loop does not make the enclosing block return on all paths; loops are deliberately not descended"},
 	{"hlsl/internal/codegen.hlslBlockEndsWithReturn/StatementKind", "StmtLoop", "ends-with-return predicate: loops are deliberately not descended"},
@@ -95,6 +96,13 @@ func (c *Ctx) runWalkAll(r *Report, rulePrefix, family string, pkg func(string) 
 			}
 		}
 	}
+}
+
+// runBlockWalkers judges only block recursion of the statement walkers of a package.
+func (c *Ctx) runBlockWalkers(r *Report, rulePrefix, family string, pkg func(string) bool, fn func(v *visitor) bool) {
+	cfg := handlewalkConfig{Rule: rulePrefix + ".Block", Handle: blockSpec, Sums: []string{"StatementKind"}, PkgFilter: pkg, FuncFilter: fn,
+		Remappers: false, Walkers: true, Exceptions: walkExceptions, Family: family + ".Block", MinCarrying: 4}
+	c.runHandlewalk(r, cfg)
 }
 
 func init() {
